@@ -222,6 +222,23 @@ func (r *runner) exec(p *program) (trace []string, compileErr string) {
 	return r.trace, ""
 }
 
+// canary evaluates decl then call and compares the printed results
+func (r *runner) canary(decl, call, want string) bool {
+	got := ""
+	if e := vh.Catch(func() {
+		r.ir.Eval(decl)
+		vs, _ := r.ir.Eval(call)
+		var ss []string
+		for _, v := range vs {
+			ss = append(ss, fmt.Sprint(v.ReflectValue().Interface()))
+		}
+		got = strings.Join(ss, " ")
+	}); e != nil {
+		return false
+	}
+	return got == want
+}
+
 func firstLine(s string) string {
 	if i := strings.IndexByte(s, '\n'); i >= 0 {
 		s = s[:i]
@@ -517,9 +534,14 @@ func main() {
 		n = 0
 	}
 	nCorpus := len(progs)
+	normal, poisoned := newRunner(false), newRunner(true)
+	// canaries: does the tree under test still show the known findings?  (their exact inputs are in corpus/C06)
+	var av avoid
+	av.NamedReturn = !normal.canary(`func Canary1() (a int, b int) { a = 1; return 5, a + 1 }`, `Canary1()`, "5 2")
+	av.AddrComplex = !normal.canary(`func Canary2() int { var c complex128 = 1; p := &c; *p += 2; return int(real(c)) }`, `Canary2()`, "3")
 	for i := 0; i < n; i++ {
 		sub := rng.Fork()
-		p := genProgram(sub, nCorpus+i)
+		p := genProgram(sub, nCorpus+i, av)
 		progs = append(progs, p)
 		inputs = append(inputs, caseInput{Idx: nCorpus + i, Seed: a.Seed, Decls: p.Decls, Run: p.Run})
 	}
@@ -546,7 +568,6 @@ func main() {
 		}
 	}
 
-	normal, poisoned := newRunner(false), newRunner(true)
 	cw := vh.NewCases(a, "From Coq Require Import List ZArith.\nFrom Verif Require Import C06.Model.\nImport ListNotations.", "case", "mismatches", 8)
 	wd := vh.NewWatchdog(rep, 60*time.Second)
 	skipped := 0
@@ -555,7 +576,11 @@ func main() {
 		wd.Beat(inputs[idx])
 		src := strings.Join(p.Decls, "\n")
 		fail := func(what string, got, want interface{}) {
-			rep.Fail(vh.Failure{Key: "prog:" + srcHash(src) + ":" + what, What: what, Input: inputs[idx], Got: got, Want: want})
+			key := "prog:" + srcHash(src) + ":" + what
+			if inputs[idx].Corpus != "" {
+				key = "corpus:" + inputs[idx].Corpus
+			}
+			rep.Fail(vh.Failure{Key: key, What: what, Input: inputs[idx], Got: got, Want: want})
 		}
 		t1, cerr := normal.exec(p)
 		if cerr != "" {
@@ -645,6 +670,7 @@ func main() {
 	rep.Extra["frame_ops_replayed_by_model"] = totalOps
 	rep.Extra["programs_skipped_event_budget"] = skipped
 	rep.Extra["corpus_programs"] = nCorpus
+	rep.Extra["generator_avoids_known_finding_classes"] = av
 	rep.Extra["poison_rounds"] = poisoned.npoison
 	rep.Write()
 }
